@@ -78,3 +78,25 @@ impl MlsGroup {
 impl CommitMessageBundle {
     #[verifier::external_body] pub fn commit(&self) -> (r: &MlsMessageOut) { unimplemented!() }
 }
+// Iterator::nth on the members() list (members() is modelled as a Vec; the real one is an iterator over the
+// NON-BLANK leaves in tree order, so position k in it is NOT leaf index k once the tree has holes)
+pub trait VxNth {
+    type Item;
+    spec fn vx_seq(&self) -> Seq<Self::Item>;
+    fn nth(self, n: usize) -> (r: Option<Self::Item>) where Self: Sized
+        ensures n < self.vx_seq().len() ==> r == Some(self.vx_seq()[n as int]), n >= self.vx_seq().len() ==> r is None;
+}
+impl VxNth for Vec<Member> {
+    type Item = Member;
+    open spec fn vx_seq(&self) -> Seq<Member> { self@ }
+    #[verifier::external_body] fn nth(self, n: usize) -> (r: Option<Member>) { unimplemented!() }
+}
+impl LeafNodeIndex {
+    pub fn usize(&self) -> (r: usize) ensures r == self.idx as usize { self.idx as usize }
+    pub fn u32(&self) -> (r: u32) ensures r == self.idx { self.idx }
+}
+impl PartialEq for Credential { #[verifier::external_body] fn eq(&self, other: &Self) -> (r: bool) { unimplemented!() } }
+impl vstd::std_specs::cmp::PartialEqSpecImpl for Credential {
+    open spec fn obeys_eq_spec() -> bool { true }
+    open spec fn eq_spec(&self, other: &Self) -> bool { *self == *other }
+}
